@@ -596,7 +596,7 @@ theorem minBy_spec (rt : Registry) (fuel : Nat) (x : Val) (rest : List Val) (a :
 
 /-! ## C. `merge` is right-biased -/
 
-theorem lookup_insertKV_same (k : String) (v : Val) (m : List (String × Val)) :
+theorem lookup_insertKV_same_bi (k : String) (v : Val) (m : List (String × Val)) :
     Val.lookup k (insertKV k v m) = some v := by
   induction m with
   | nil => simp [insertKV, Val.lookup]
@@ -612,7 +612,7 @@ theorem lookup_insertKV_same (k : String) (v : Val) (m : List (String × Val)) :
         simp only [Val.lookup, ih]
         rw [if_neg (fun h => hne h.symm)]
 
-theorem lookup_insertKV_ne (k k' : String) (v : Val) (m : List (String × Val)) (hne : k' ≠ k) :
+theorem lookup_insertKV_ne_bi (k k' : String) (v : Val) (m : List (String × Val)) (hne : k' ≠ k) :
     Val.lookup k' (insertKV k v m) = Val.lookup k' m := by
   induction m with
   | nil => simp [insertKV, Val.lookup, hne.symm]
@@ -650,8 +650,8 @@ theorem lookup_extend (k : String) (kvs : List (String × Val)) : ∀ acc : List
     congr 1
     by_cases h : k1 = k
     · subst h
-      simp [lookup_insertKV_same, Val.lookup]
-    · rw [lookup_insertKV_ne _ _ _ _ (fun h' => h h'.symm)]
+      simp [lookup_insertKV_same_bi, Val.lookup]
+    · rw [lookup_insertKV_ne_bi _ _ _ _ (fun h' => h h'.symm)]
       simp [Val.lookup, h]
 
 theorem findSome?_congr' {α β : Type} {f g : α → Option β} {l : List α} (h : ∀ a ∈ l, f a = g a) :
@@ -694,7 +694,7 @@ theorem merge_lookup (k : String) (args : List Val) :
 /-- strictly increasing keys (the `BTreeMap` invariant of every object) -/
 def SortedKeys (m : List (String × Val)) : Prop := m.Pairwise (fun a b => a.1 < b.1)
 
-theorem mem_insertKV {k : String} {v : Val} {m : List (String × Val)} {p : String × Val}
+theorem mem_insertKV_bi {k : String} {v : Val} {m : List (String × Val)} {p : String × Val}
     (h : p ∈ insertKV k v m) : p = (k, v) ∨ p ∈ m := by
   induction m with
   | nil => simpa [insertKV] using h
@@ -741,7 +741,7 @@ theorem insertKV_sorted (k : String) (v : Val) (m : List (String × Val)) (h : S
       · rename_i hne
         refine List.pairwise_cons.2 ⟨?_, ih h.2⟩
         intro p hp
-        rcases mem_insertKV hp with rfl | hp
+        rcases mem_insertKV_bi hp with rfl | hp
         · have hle : k' ≤ k := String.not_lt.1 hlt
           rcases Decidable.em (k' < k) with h' | h'
           · exact h'
@@ -835,7 +835,7 @@ theorem merge_two (k : String) (m1 m2 : List (String × Val)) (h2 : SortedKeys m
 theorem keys_eq (kvs : List (String × Val)) :
     Builtin.pure .keys [.obj kvs] = .ok (.arr (kvs.map fun p => .str p.1)) := rfl
 
-theorem values_eq (kvs : List (String × Val)) :
+theorem values_eq_bi (kvs : List (String × Val)) :
     Builtin.pure .values [.obj kvs] = .ok (.arr (kvs.map (·.2))) := rfl
 
 /-- **`keys` and `values` correspond pairwise**: zipping them gives back the members, in order -/
@@ -843,7 +843,7 @@ theorem keys_values_zip (kvs : List (String × Val)) :
     ∃ (ks : List String) (vs : List Val), Builtin.pure .keys [.obj kvs] = .ok (.arr (ks.map .str)) ∧
       Builtin.pure .values [.obj kvs] = .ok (.arr vs) ∧ ks.zip vs = kvs ∧
       ks.length = kvs.length ∧ vs.length = kvs.length := by
-  refine ⟨kvs.map (·.1), kvs.map (·.2), by simp [keys_eq], values_eq kvs, ?_, by simp, by simp⟩
+  refine ⟨kvs.map (·.1), kvs.map (·.2), by simp [keys_eq], values_eq_bi kvs, ?_, by simp, by simp⟩
   induction kvs with
   | nil => rfl
   | cons p kvs ih => simp [ih]
@@ -1273,8 +1273,8 @@ end JmesVerif
 #print axioms JmesVerif.keysTyped_spec
 #print axioms JmesVerif.maxBy_spec
 #print axioms JmesVerif.minBy_spec
-#print axioms JmesVerif.lookup_insertKV_same
-#print axioms JmesVerif.lookup_insertKV_ne
+#print axioms JmesVerif.lookup_insertKV_same_bi
+#print axioms JmesVerif.lookup_insertKV_ne_bi
 #print axioms JmesVerif.lookup_extend
 #print axioms JmesVerif.mergeObjs_lookup
 #print axioms JmesVerif.merge_lookup
